@@ -957,6 +957,18 @@ class SVal:
                 self._lams = {}
             self._lams[id(e)] = e
             return ('lambda', names, self.ev(e.body, le, pc + ((('in-lambda',), True),), record), id(e))
+        if isinstance(e, (ast.ListComp, ast.GeneratorExp)) and len(e.generators) == 1 and not e.generators[0].ifs \
+                and not e.generators[0].is_async and isinstance(e.generators[0].target, ast.Name):
+            # [f(x) for x in (a, b)] is [f(a), f(b)]
+            it0 = self.ev(e.generators[0].iter, env, pc, record)
+            if it0[0] in ('tuple', 'list') and 1 <= len(it0[1]) <= 8 and not any(
+                    isinstance(x, tuple) and x and x[0] in ('star', 'when', 'each', 'acc') for x in it0[1]):
+                items = []
+                for x in it0[1]:
+                    ce = dict(env)
+                    ce[e.generators[0].target.id] = x
+                    items.append(self.ev(e.elt, ce, pc, record))
+                return ('list', tuple(items))
         if isinstance(e, (ast.ListComp, ast.SetComp, ast.GeneratorExp, ast.DictComp)):
             ce = dict(env)
             wrap = []
